@@ -145,8 +145,9 @@ class World:
     self._inv_before = dict(config._INVERSE_REGISTRY)
     self._hooks_before = list(config._FINALIZE_HOOKS)
     self._hard_reset()
+    self.reg_status = {}    # dotted selector -> 'ok' / exception class: every initial descriptor is valid by construction
     for d in descriptors:
-      self.register(d)
+      self.reg_status[dotted(d['sel'])] = self.register(d)
 
   # -- lifecycle -------------------------------------------------------------
   def _hard_reset(self):
@@ -751,6 +752,9 @@ def replay(beh, fields=ALL_FIELDS, at_end=None):
   # literal pools are seeded from the behaviour itself, so that a replay file reproduces exactly
   world = World(beh[0]['reg'], pool_seed=zlib.crc32(core.jdump([s['out'] for s in beh[:4]]).encode()) + core.seed())
   try:
+    bad = {k: v for k, v in world.reg_status.items() if v != 'ok'}
+    if bad:
+      return dict(step=0, action='Init', clause='out.registration', expected='ok', got=bad, args={})
     for i, st in enumerate(beh):
       o = st['out']
       if i > 0:
